@@ -3,6 +3,8 @@ import DracoProofs.EbAssignPoints
 import DracoProofs.EbEncCounts2
 import DracoProofs.EbCountsIso
 import DracoProofs.EbIsoCheck
+import DracoProofs.EbCoverage
+import DracoProofs.EbConnExample
 /-
   C09 for Edgebreaker, on the CORNER-TABLE models (DracoModel/EbConnectivity.lean `assignPoints`,
   DracoModel/EbEncoder.lean `computeNumberOfEncodedPoints`): closes, on the decoder's side, the gap of DracoProps/C09.lean
@@ -24,8 +26,11 @@ import DracoProofs.EbIsoCheck
     `computeNumberOfEncodedPoints_tbl`, `_create`, `_of_encode`); `= num_vertices − isolated` for ≤ 1 attribute.
   * `eb_encoded_points_eq_decoded`: the two counts are EQUAL under the isomorphism of the tables, the correspondence of
     the attribute vertices, H2, coverage and `hiso` (fans correspond: `CountsIso.fan_corr`).
-  Evaluated, not proved here: `processed.size = num_faces − NumDegeneratedFaces` (`encodeConnectivity_faces` in DracoProofs/EbEncCounts.lean
-  proves `≤`, distinctness, non-degeneracy, and equality IFF every non-degenerate face is reached by the traversal);
+  * `eb_encoded_faces` (FACES, encoder side, unconditional): the number of faces the encoder reports,
+    `num_faces − NumDegeneratedFaces`, IS the number of faces of `processed_connectivity_corners_` (one per traversal symbol /
+    interior start face, i.e. what a decoder rebuilds); these faces are pairwise different and exactly the non-degenerate
+    faces of the encoder's corner table (traversal completeness, DracoProofs/EbCoverage.lean: a graph-search invariant of
+    `EncodeConnectivityFromCorner` — the C-chain descent — over the tables `CornerTable.create` builds).
   `counts-ok` compares both counts on every case.
 -/
 namespace Draco.C09Eb
@@ -186,5 +191,28 @@ example : (4 : Nat) = 4 :=
     (by unfold Coverage; decide +kernel) (by decide +kernel)
 
 end TetraExample
+
+open Draco.EbEnc.EncCounts in
+/-- **C09, faces, Edgebreaker (encoder side), unconditional.**  After a successful `encodeEdgebreaker` the reported
+    number of encoded faces (`ComputeNumberOfEncodedFaces` = `num_faces − NumDegeneratedFaces` of the position corner
+    table) equals the number of `processed_connectivity_corners_`; their faces are pairwise different, not degenerate,
+    and EVERY non-degenerate face of the table is among them (`Coverage.encodeConnectivity_coverage`).  With the
+    connectivity link (`mesh.numFaces = processed.size`, part of `ctIso`) this is "encoded faces = decoded faces". -/
+theorem eb_encoded_faces (ch : EbChoices) (g : Geometry) (md : Option GeometryMetadata) (o : EbOpts) (enc : Encoded)
+    (henc : encodeEdgebreaker ch g md o = .ok enc) :
+    enc.numEncodedFaces = enc.conn.processed.size ∧
+    (enc.conn.processed.toList.map (· / 3)).Nodup ∧
+    (∀ c ∈ enc.conn.processed.toList, c < enc.conn.ct.numCorners ∧ isDegenerated enc.conn.ct (c / 3) = .ok false) ∧
+    (∀ f, f < enc.conn.ct.numFaces → isDegenerated enc.conn.ct f = .ok false →
+      f ∈ enc.conn.processed.toList.map (· / 3)) := by
+  obtain ⟨_, coder, posFaces, acv, _, _, _, _, _, hconn, _, _, _, _, _, _, _, hnf, _⟩ :=
+    (encodeEdgebreaker_stages ch g md o enc henc).stages
+  have hf := encodeConnectivity_faces ch.conn (coder == 2) posFaces acv enc.conn hconn
+  have hc := Coverage.encodeConnectivity_coverage ch.conn (coder == 2) posFaces acv enc.conn hconn
+  exact ⟨by rw [hnf, Coverage.encodeConnectivity_size ch.conn (coder == 2) posFaces acv enc.conn hconn], hf.1, hf.2.1, hc⟩
+
+/-- non-vacuity: the one-triangle run of DracoProofs/EbConnExample.lean -/
+example : ConnExample.exEnc.numEncodedFaces = ConnExample.exEnc.conn.processed.size :=
+  (eb_encoded_faces _ _ _ _ _ ConnExample.exEncode).1
 
 end Draco.C09Eb
